@@ -179,6 +179,9 @@ def run(c):
     for b in builds:
         if b.error:
             c.hist("build", "rejected" if b.error.startswith("rejected") else "failed")
+            if not b.error.startswith("rejected"):
+                c.fail("e2e-build", "design %d could not be generated/built: %s" % (b.index, b.error[:300]),
+                       input={"seed": c.seed, "index": b.index, "flags": getattr(b, "flags", None)}, design=b.design, expected="builds", actual=b.error)
             b.cleanup()
             continue
         c.hist("build", "ok")
